@@ -107,6 +107,13 @@ void fiber_manager_yield(fiber_manager_t* manager) {
 
     fiber_t* const new_fiber = fiber_scheduler_next(manager->scheduler);
     if (new_fiber) {
+      if (current_fiber == manager->maintenance_fiber) {
+        // the maintenance fiber can get here through the deferred mutex unlock
+        // in fiber_manager_do_maintenance(). it is resumed directly whenever
+        // its thread runs out of work, so it must never be put on a run queue
+        // (where another thread could steal and run it as well)
+        current_fiber->state = FIBER_STATE_SAVING_STATE_TO_WAIT;
+      }
       fiber_manager_switch_to(manager, current_fiber, new_fiber);
       break;
     } else if (FIBER_STATE_WAITING == state || FIBER_STATE_DONE == state ||
